@@ -162,6 +162,27 @@ def run(ctx: Ctx, tier: str) -> Result:
     else:
         res.fail(Finding("C13.ADD", add.qname, "<append; notify>", add.loc(), "a registration is not appended and then propagated to the trigger handler"))
 
+    # every (un)registration reaches the listeners: the notifier submits unconditionally (only `a task handler is set`)
+    tu = [f for f in p.functions.values() if f.cls is svc and f.name.endswith("trigger_update")]
+    need(len(tu) == 1, "TracepointConfigService.__trigger_update not found")
+    tu = tu[0]
+    subs = [c for c in t.calls_in(tu) if any(x.qname == "deep.task.TaskHandler.submit_task" for x in t.resolve_call(c, tu).repo)
+            or (isinstance(c.func, ast.Attribute) and c.func.attr == "submit_task")]
+    if len(subs) != 1:
+        res.fail(Finding("C13.ADD", tu.qname, "<submit_task(update_listeners, ...)>", tu.loc(), "the notifier submits the listener update %d times" % len(subs)))
+    else:
+        extra = [(c, pol) for c, pol in paths.conditions(p, subs[0], tu) if "_task_handler" not in norm(c)]
+        fn = ctx.expand.expand(subs[0].args[0], tu) if subs[0].args else []
+        if not extra and not paths.enclosing_loops(p, subs[0], tu) and fn and fn[0].endswith("update_listeners"):
+            res.ok("C13.ADD", {"every change is submitted to the listeners": tu.loc(subs[0])})
+        else:
+            res.fail(Finding("C13.ADD", tu.qname, subs[0], tu.loc(subs[0]),
+                             "the listener update is only submitted when `%s`: a registration or unregistration made at the wrong moment "
+                             "never reaches the trigger handler" % (norm(extra[0][0]) if extra else fn)))
+    early = [n for n in t.nodes_in(tu, ast.Return) if subs and n.lineno < subs[0].lineno]
+    if early:
+        res.fail(Finding("C13.ADD", tu.qname, early[0], tu.loc(early[0]), "the notifier returns before submitting the listener update on some path"))
+
     # ---------------- API
     reg = p.func(DEEP + ".Deep.register_tracepoint")
     ac = [c for c in t.calls_in(reg) if add in t.resolve_call(c, reg).repo]
